@@ -154,14 +154,26 @@ def classify(ck: Check, hists, which: str):
                         f'{h["calls"][j]} fails with an internal error: '
                         f'{(h["internal"] or ("", ""))[1][:300]}',
                         {**replay, 'error': h['internal']})
+                elif ict != mct and mret != 'bad-op':
+                    # C04's own clause: whatever the call did, the circuit no
+                    # longer holds what the reference model holds
+                    ck.violation(
+                        f'program-order:{kind}:state-after-internal-error',
+                        f'{h["calls"][j]} failed internally ('
+                        f'{iret.split()[1]}) and left the circuit different '
+                        'from the reference model (which '
+                        + ('performed the call' if mret.startswith('ok')
+                           else 'rejected the call and kept its state')
+                        + ')', {**replay, 'error': h['internal']})
                 break
             if ict == 'VIEW-ERROR':
-                if which == 'C05':
-                    ck.violation(
-                        f'view-error:{kind}',
-                        'a read accessor fails after ' + h['calls'][j] + ': '
-                        + (h['internal'] or ('', ''))[1][:300],
-                        {**replay, 'error': h['internal']})
+                ck.violation(
+                    (f'view-error:{kind}' if which == 'C05'
+                     else f'program-order:{kind}:unreadable'),
+                    'the circuit cannot be read back through the public API '
+                    'after ' + h['calls'][j] + ': '
+                    + (h['internal'] or ('', ''))[1][:300],
+                    {**replay, 'error': h['internal']})
                 break
             if mret == 'bad-op':
                 raise RuntimeError(f'driver rejected line: {line}')
@@ -178,6 +190,13 @@ def classify(ck: Check, hists, which: str):
             bad05 = [k for k in C05_VIEWS if iv.get(k) != mv.get(k)]
             if mret.startswith('violated') and mret != 'violated inv':
                 bad04.append(mret)
+            if which == 'C04' and iv.get('inv', 'true') == 'false:cells':
+                ck.violation(
+                    f'program-order:{kind}:cells-vs-location',
+                    f'after {h["calls"][j]} an operation sits in cells that '
+                    'are not its location: the circuit does not hold the '
+                    'operations of the reference model', replay)
+                break
             if which == 'C05' and iv.get('inv', 'true') != 'true':
                 ck.violation(
                     f'inv:{iv["inv"].split(":")[-1]}:{kind}',
